@@ -78,6 +78,13 @@ HdrNorm(ver, hc) == IF ver = 5 /\ ~hc.sync THEN [hc EXCEPT !.leap = 3] ELSE hc
 (* authenticator field that could not be opened (no keys in this model).   *)
 (***************************************************************************)
 V5Kinds == {"draft", "rreq", "rresp"}
+\* does a run contain a byte >= 0x80?  Headers (and leading pieces of headers, class "X") that got inside a field's
+\* message through an oversized declared length: type 0xF5xx for the NTPv5 kinds, then the two length bytes.
+NonAscii(r) == \/ r.c = "D"
+               \/ /\ r.c \in {"H", "X"}
+                  /\ \/ r.k \in {"draft", "pad", "rreq", "rresp"}
+                     \/ (r.n >= 3 /\ r.dl >= 32768)
+                     \/ (r.n >= 4 /\ r.dl % 256 >= 128)
 First4Zero(msg) == msg # <<>> /\ msg[1].c = "Z" /\ msg[1].n >= 4
 Fld(kind, ty, data) == [kind |-> kind, ty |-> ty, data |-> data]
 Field(k, msg, ver) ==
@@ -86,7 +93,7 @@ Field(k, msg, ver) ==
          IF Bytes(msg) < 4 \/ ~First4Zero(msg) THEN [err |-> "len", f |-> Fld("", "", <<>>)]
          ELSE [err |-> "", f |-> Fld("invalid", k, <<>>)]
     [] k = "draft" /\ ver = 5 ->
-         IF \E i \in 1..Len(msg) : msg[i].c = "D" THEN [err |-> "v5draft", f |-> Fld("", "", <<>>)]
+         IF \E i \in 1..Len(msg) : NonAscii(msg[i]) THEN [err |-> "v5draft", f |-> Fld("", "", <<>>)]
          ELSE [err |-> "", f |-> Fld("draft", k, msg)]
     [] k = "rreq" /\ ver = 5 ->
          IF Bytes(msg) < 2 THEN [err |-> "len", f |-> Fld("", "", <<>>)] ELSE [err |-> "", f |-> Fld("rreq", k, msg)]
